@@ -155,4 +155,5 @@ template<class Tg,class S,class GA,class GB> typename Tg::template G<S> hcompose
 }
 // hypothesis: rotation magnitude of a tangent below pi (injectivity radius / the property's stated domain)
 template<class Tg,class R,class T> void assume_rot_below_pi(R& rec, const T& t){ typedef typename R::S S; S r=Tg::template rotsq<S>(t); if(!(Tg::DoF==Tg::P && Tg::H==Tg::P+1 && Tg::Rep==Tg::P)) rec.assume(r, 0, S(9.869604)); } // 9.869604 < pi^2
+template<class Tg,class R,class T> void assume_rot_positive(R& rec, const T& t){ typedef typename R::S S; S r=Tg::template rotsq<S>(t); if(!(Tg::DoF==Tg::P && Tg::H==Tg::P+1 && Tg::Rep==Tg::P)) rec.assume(S(0.0), 0, r); }
 } // namespace gx
